@@ -1072,6 +1072,23 @@ func ruleOpDefinesAll(c *Ctx, r *Report) {
 		r.undecided(rule, "anchor", "-", "locate op/3 and operators.define", "not found")
 		return
 	}
+	// does define return at once for priority 0?  (its entry block branches on <priority parameter> == 0 into a
+	// block that only returns)
+	defineNoopForZero := false
+	if len(define.Blocks) > 0 && len(define.Params) >= 2 {
+		b0 := define.Blocks[0]
+		if x, opk, k, ok := cmpConst(ifCond(b0)); ok && k == 0 && x == ssa.Value(define.Params[1]) && (opk == token.EQL || opk == token.NEQ) {
+			t := b0.Succs[0]
+			if opk == token.NEQ {
+				t = b0.Succs[1]
+			}
+			if len(t.Instrs) == 1 {
+				if _, isRet := t.Instrs[0].(*ssa.Return); isRet {
+					defineNoopForZero = true
+				}
+			}
+		}
+	}
 	n := 0
 	eachInstr(op, func(in ssa.Instruction) {
 		call, ok := in.(*ssa.Call)
@@ -1116,9 +1133,16 @@ func ruleOpDefinesAll(c *Ctx, r *Report) {
 				}
 				seen[b] = true
 				cond := ifCond(b)
-				for _, s := range b.Succs {
+				for si, s := range b.Succs {
 					if bo, ok := cond.(*ssa.BinOp); ok && avoid != nil && (bo.Op == token.EQL || bo.Op == token.NEQ) && isEngNamed(bo.X.Type(), "operator") && !isPtr(bo.X.Type()) {
 						continue // whole-operator comparison: either outcome may skip
+					}
+					// skipping define where the priority is known to be 0 skips nothing: define itself returns at
+					// once for priority 0 (checked on define's own entry block)
+					if avoid != nil && defineNoopForZero {
+						if x, op, k, ok := cmpConst(cond); ok && k == 0 && c.sameVar(x, call.Call.Args[1]) && ((op == token.EQL && si == 0) || (op == token.NEQ && si == 1)) {
+							continue
+						}
 					}
 					if dfs(s) {
 						return true
@@ -1148,7 +1172,71 @@ func ruleOpDefinesAll(c *Ctx, r *Report) {
 	if n == 0 {
 		r.bad(rule, fname(op)+"/define", c.Pos(op.Pos()), desc, "op/3 never calls operators.define")
 	}
+	// (added after seed C18e) the loop that applies the request to every name is left only at its header: a
+	// return (or break) inside the body ends the call after the first names - successfully - and the rest of
+	// the list keeps its old definitions
+	mut := c.opsMutators()
+	doneLoops := map[*ssa.BasicBlock]bool{}
+	eachInstr(op, func(in ssa.Instruction) {
+		call, ok := in.(*ssa.Call)
+		if !ok || !mut[call.Call.StaticCallee()] {
+			return
+		}
+		H, exits := loopEarlyExits(op, call.Block())
+		if H == nil || doneLoops[H] {
+			return
+		}
+		doneLoops[H] = true
+		key := fname(op) + "/apply-loop-exits"
+		d2 := "the loop of op/3 that applies the request to each name is left only when the names are exhausted"
+		if len(exits) == 0 {
+			r.ok(rule, key, c.at(H.Instrs[0]), d2, "no edge leaves the loop body except through its header", true)
+		} else {
+			r.bad(rule, key, c.at(exits[0].Instrs[len(exits[0].Instrs)-1]), d2, "the body can leave the loop here: the names after the current one are not processed although op/3 succeeds")
+		}
+	})
 	r.analysed(rule, fname(op))
+}
+
+// loopEarlyExits: the innermost natural loop around `anchor` (header H) and the blocks of its body, other than
+// H, that have a successor outside the loop.
+func loopEarlyExits(fn *ssa.Function, anchor *ssa.BasicBlock) (*ssa.BasicBlock, []*ssa.BasicBlock) {
+	var H *ssa.BasicBlock
+	for _, b := range fn.Blocks {
+		back := false
+		for _, p := range b.Preds {
+			if b.Dominates(p) {
+				back = true
+			}
+		}
+		if back && (b == anchor || b.Dominates(anchor)) && (b == anchor || reachableFromAvoiding(anchor, b, nil)) {
+			if H == nil || H.Dominates(b) {
+				H = b
+			}
+		}
+	}
+	if H == nil {
+		return nil, nil
+	}
+	in := map[*ssa.BasicBlock]bool{H: true}
+	for _, b := range fn.Blocks {
+		if b != H && H.Dominates(b) && reachableFromAvoiding(b, H, nil) {
+			in[b] = true
+		}
+	}
+	var exits []*ssa.BasicBlock
+	for _, b := range fn.Blocks {
+		if !in[b] || b == H {
+			continue
+		}
+		for _, s := range b.Succs {
+			if !in[s] {
+				exits = append(exits, b)
+				break
+			}
+		}
+	}
+	return H, exits
 }
 
 // loopIterationSkips: can an iteration of the innermost loop around `anchor` get from the body entry back
@@ -1502,6 +1590,34 @@ func rulePartialCountEmit(c *Ctx, r *Report) {
 			lists = append(lists, c.originSet(st.Val))
 			at = append(at, in)
 		})
+		if len(lists) == 1 {
+			// the count may be delegated to a helper that returns an int: it has to be given the value the
+			// emitting iterator ranges over (what the helper does with a text is R-TEXT-RUNE's business)
+			helper := ""
+			eachInstr(fn, func(in ssa.Instruction) {
+				call, ok := in.(*ssa.Call)
+				if !ok || helper != "" {
+					return
+				}
+				callee := call.Call.StaticCallee()
+				if callee == nil || funcPkg(callee) != c.Engine || callee.Signature.Results().Len() != 1 {
+					return
+				}
+				if b, ok := callee.Signature.Results().At(0).Type().Underlying().(*types.Basic); !ok || b.Info()&types.IsInteger == 0 {
+					return
+				}
+				for _, a := range call.Call.Args {
+					if sameLeafSetByName(lists[0], c.originSet(a)) {
+						helper = callee.Name()
+					}
+				}
+			})
+			if helper != "" {
+				n++
+				r.ok(rule, fname(fn)+"/iterators", c.at(at[0]), desc, "the count is delegated to "+helper+", which is given the value the emitting iterator ranges over", true)
+			}
+			continue
+		}
 		if len(lists) < 2 {
 			continue
 		}
